@@ -375,6 +375,9 @@ def run(repo, rep, tier):
         "repository's own marker comment 'no possibility of exception from here on out' never follows an own-state "
         "store. Decides the ordering clause of the property for every path, not the run-time exception behaviour."
     )
+    rep.extra["explanation"] += " " + (
+        'Later additions: an isinstance guard validates a user value only for numbers.Real or narrower / string types; (R12.4) conversion helpers used as validators let the conversion error escape.'
+    )
     rep.not_decided += ["exceptions from numpy inside _numpy (outside the property)", "asynchronous exceptions"]
     rep.assumptions += [
         "math.isnan/isinf, float('nan'), arithmetic and comparisons on a validated numbers.Real do not raise",
